@@ -13,6 +13,8 @@ let () =
   | [_; "cmp-cl"; hist; impl] -> Cmp_cl.run hist impl
   | [_; "gen-cl"; seed; n; out] -> Gen_cl.run (int_of_string seed) (int_of_string n) out
   | [_; "run-cl"; hist; out] -> Cl_io.run_model hist out
+  | [_; "ext-cl"; hist; res; out] -> Ext.ext_cl hist res out
+  | [_; "ext-gw"; hist; res; out] -> Ext.ext_gw hist res out
   | [_; "run-e2e"; hist; out] -> E2e_io.run_model hist out
   | [_; "gen-e2e"; seed; n; out] -> Gen_e2e.run (int_of_string seed) (int_of_string n) out
   | [_; "cmp-e2e"; hist; impl] -> Cmp_e2e.run hist impl
